@@ -155,7 +155,7 @@ func main() {
 		},
 		Rule:        seqRule + " Concurrent part: two senders racing with a clock step, every schedule within the preemption bound; then a Process at a time between the two possible expiries: no held group's expiry (read from the filter's private state) may lie before that time.",
 		Assumptions: []string{"the clock is the filter's NowFunc, owned by the harness", "depth 6 (quick) / 8 (thorough)", "the concurrent scenario reads gatedEvent.exp by reflection; if the private layout changes it is skipped, not failed"},
-		QuickBudget: 150 * time.Second, ThoroughBudget: 45 * time.Minute,
+		QuickBudget: 300 * time.Second, ThoroughBudget: 45 * time.Minute,
 	})
 }
 
@@ -165,5 +165,5 @@ func unusedMain() {
 	hk.Main(seqmc.Check(harness,
 		"BFS over all histories up to the depth bound of {event(id), flush event, clock +1ms, clock +Expiration+1ms, FlushAll, Close} on the real gated.Filter with 3 ids (full alphabet) and 5 ids (0..5 groups open at once), Broker set / nil, and with the Broker or the composition failing at its k-th call (a part-way failure followed by a retry). After every successful Process at virtual time T a probe on a replayed copy must find no group whose expiry lies before T, the expired groups must have reached the Sender oldest first (or been dropped with no Broker); after a successful FlushAll / Close the probe must find nothing and every previously held group must have been emitted exactly once.",
 		[]string{"the clock is the filter's NowFunc, owned by the harness", "depth 6 (quick) / 8 (thorough)"},
-		150*time.Second, 45*time.Minute))
+		300*time.Second, 45*time.Minute))
 }
